@@ -142,6 +142,29 @@ def pcr_cases(thorough, seed):
                 lines = [" ORG $2000\n", "P1 %s %s\n" % (m1, o1), "P2 %s %s\n" % (m2, o2.replace("T1", "T3"))] + filler(n, "rmb") + ["T3 NOP\n", "T2 NOP\n", " RTS\n"]
                 yield {"id": "pcrnest/%s/%s/%d/%d%d" % (m1, m2, n, ind1, ind2), "lines": lines, "form": "pcr.nested", "traits": {"ind": ind1 or ind2, "zone": "n/a"},
                        "src": [("P1", "T2", 0), ("P2", "T3", 0)], "valid": True, "mn": m1}
+    # a PCR statement / branch directly followed by a later ORG (the next statement's address is not the end of the instruction)
+    for mn, op in (("LEAX", "T,PCR"), ("JMP", "T,PCR"), ("LDA", "[T,PCR]"), ("BRA", "T"), ("LBRA", "T")):
+        for org2 in (0x2010, 0x2100, 0x3000):
+            lines = [" ORG $2000\n", "T NOP\n", " NOP\n", "S %s %s\n" % (mn, op), " ORG $%X\n" % org2, "U NOP\n"]
+            yield {"id": "beforeorg/%s/%X" % (mn, org2), "lines": lines, "form": "rel.before-later-org", "traits": {"ind": "[" in op, "zone": "n/a"},
+                   "src": [("S", "T", 0)], "valid": None, "mn": mn}
+    # branches whose span contains 8-bit and 16-bit label,PCR statements
+    for bm in ("BRA", "BNE", "LBRA", "BSR"):
+        for npcr in (1, 2, 3):
+            for far in (False, True):
+                inner = []
+                for j in range(npcr):
+                    inner += [" LDA D%d,PCR\n" % j, " CLRA\n"]
+                tail = []
+                for j in range(npcr):
+                    tail += filler(200 if far else 3, "rmb") + ["D%d FCB 1\n" % j]
+                for fwd in (True, False):
+                    if fwd:
+                        lines = [" ORG $2000\n", "S %s T\n" % bm, " NOP\n"] + inner + ["T NOP\n"] + tail
+                    else:
+                        lines = [" ORG $2000\n", "T NOP\n"] + inner + ["S %s T\n" % bm, " NOP\n"] + tail
+                    yield {"id": "overpcr/%s/%d/%s/%s" % (bm, npcr, far, fwd), "lines": lines, "form": "branch-over-pcr", "traits": {"zone": "n/a"},
+                           "src": [("S", "T", 0)] , "valid": True, "mn": bm}
     # label +- EQU constant of either sign: the width decision must use the signed constant
     for mn in ("LEAX", "LDA"):
         for cv in (-100, -2, 3, 100, -200):
@@ -159,7 +182,7 @@ def pcr_cases(thorough, seed):
                                "src": [("S", "T", n)], "valid": True, "mn": mn}
     # label +- n
     for mn in ("LDA", "LEAX"):
-        for n in (1, 2, 5, -1, -3):
+        for n in (1, 2, 5, -1, -3, 100, 130, 200, 300, -100, -130, -200, -300):
             for gap in (0, 10, 118, 122, 126, 130, 300):
                 for fwd in (True, False):
                     e = "T%+d" % n
